@@ -5,7 +5,7 @@ import json
 import os
 from typing import Dict, List, Set, Tuple
 
-from ..heap import is_param_loc, param_of, FRESH
+from ..heap import is_param_loc, param_of, FRESH, DELEM
 from ..rules.common import where
 
 EXPLANATION = (
@@ -149,6 +149,22 @@ def fresh(ctx, obs, q, exc, rule='FRESH'):
     bad = False
     # fields of freshly built result objects
     for fld, locs in sorted(s.ret_fields.items()):
+        if fld == DELEM:
+            for l in sorted(x for x in locs if is_param_loc(x)):
+                parts = l[2:].split('.')
+                # entries of an argument's own descriptor dicts are values that the library replaces and never edits in place
+                # (rule VALS): sharing them is how every shallow dict copy works and no documented operation can tell.  What
+                # must not be stored is an argument itself (an array / list the caller keeps using)
+                if len(parts) >= 2 and (parts[1] in CONTENT_FIELDS or parts[1] == 'rdm_obj'):
+                    continue
+                if _documented_immutable(fi, parts[0]):
+                    continue
+                bad = True
+                obs.bad(rule, q, f'the descriptor entries of the result are independent of {l}',
+                        f'the object returned by {q} stores the caller\'s `{l[2:]}` itself as an entry of one of its descriptor '
+                        f'dicts: a write through the result\'s descriptor changes the caller\'s object (and the reverse)',
+                        where(prog, fi, fi.node))
+            continue
         if fld not in CONTENT_FIELDS:
             continue
         shared = sorted(l for l in locs if is_param_loc(l))
@@ -170,6 +186,27 @@ def fresh(ctx, obs, q, exc, rule='FRESH'):
                     where(prog, fi, fi.node))
     if not bad:
         obs.ok(rule, q, 'result does not alias an argument', '', where(prog, fi, fi.node))
+
+
+def _documented_immutable(fi, param: str) -> bool:
+    """the docstring types the parameter as a string / number / bool (`name (str):`, `name (String, optional)`), or its default
+    is a string / number: such a value cannot be written through"""
+    import re
+    doc = ast.get_docstring(fi.node) or ''
+    m = re.search(r'^\s*' + re.escape(param) + r'\s*\(([^)]*)\)\s*:', doc, re.M) or re.search(r'^\s*' + re.escape(param) + r'\s*:\s*(\S+)', doc, re.M)
+    if m and re.match(r'\s*(str|string|int|float|bool|number)\b', m.group(1), re.I):
+        return True
+    a = fi.node.args
+    names = [x.arg for x in a.posonlyargs + a.args]
+    dflt = dict(zip(reversed(names), reversed(a.defaults)))
+    dflt.update({k.arg: d for k, d in zip(a.kwonlyargs, a.kw_defaults) if d is not None})
+    d = dflt.get(param)
+    if isinstance(d, ast.Constant) and isinstance(d.value, (str, int, float, bool)) and d.value is not None:
+        return True
+    ann = next((x.annotation for x in a.posonlyargs + a.args + a.kwonlyargs if x.arg == param), None)
+    if ann is not None and re.fullmatch(r'(Optional\[)?(str|int|float|bool)\]?( \| None)?', ast.unparse(ann)):
+        return True
+    return False
 
 
 def _content_loc(l: str) -> bool:
